@@ -82,12 +82,8 @@ def _case(kind, pair):
             return z3.And(*parts)
 
         def inv(I2, loc, seen):
-            return facts(loc["output"].term, z3.Length(seen))
-
-        def havoc(I2, cur):
-            cur.term = I2.fresh("output", z3.ArraySort(S, Z.JV))
-            return cur
-        I.loop_specs[(Q, 0)] = LoopSpec(inv, {"output": havoc})
+            return facts(out.term, z3.Length(seen))          # `out` is the dict the function creates, whatever it is called
+        I.loop_specs[(Q, 0)] = LoopSpec(inv, {})               # the body's variables are havocked by type (in place)
         seq = SSeq(base, dom, [])
         inputs = {"facts": facts, "base": base, "out": out}
         return SFunc("pyfunc", EP.EnumProperty.values_from_list), [seq, class_info], {}, inputs
